@@ -173,11 +173,68 @@ fn deploy_jobs(tier: Tier, v: &mut Vec<Job>) {
     }
 }
 
+// ---- accounts that are already delegated when the block starts ------------------------------------
+// (seeded change C09c: a worker-local code cache keyed by the code hash of a separately read
+// account record.) Two authorities share one designator before the block; one of them is
+// re-pointed or cleared in the block while the other is only called and inspected; the database is
+// "slow" (a schedule point inside every fetch), so a reader can sit between its account read and
+// its code read while the re-pointing transaction publishes.
+
+pub fn predelegated_world() -> MemDb {
+    let mut db = world();
+    db.delegate(a(), contract(T1));
+    db.delegate(b(), contract(T1));
+    db
+}
+
+pub fn predelegated_templates() -> Vec<Template> {
+    let (a, b) = (a(), b());
+    vec![
+        tpl_auth("repoint(A>T2)+call(A,2,55)(e3)", eoa(3), &["A"], vec![a], move |n, nonce_of| {
+            with_auths(call(eoa(3), n, a, &[word(2), word(55)]), vec![authorization(a, nonce_of(a), contract(T2))])
+        }),
+        tpl_auth("clear(A)(e2)", eoa(2), &["A"], vec![a], move |n, nonce_of| {
+            with_auths(call(eoa(2), n, eoa(1), &[]), vec![authorization(a, nonce_of(a), Address::ZERO)])
+        }),
+        tpl("call(A,1)(e0)", eoa(0), &["A"], move |n| call(eoa(0), n, a, &[word(1)])),
+        tpl("call(B,1)(e1)", eoa(1), &["A"], move |n| call(eoa(1), n, b, &[word(1)])),
+        tpl("probe(A)(e0)", eoa(0), &["A"], move |n| call(eoa(0), n, contract(3), &[word_addr(a)])),
+        tpl("probe(B)(e1)", eoa(1), &["A"], move |n| call(eoa(1), n, contract(3), &[word_addr(b)])),
+        tpl("call(B,2,66)(e0)", eoa(0), &["A"], move |n| call(eoa(0), n, b, &[word(2), word(66)])),
+    ]
+}
+
+fn predelegated_jobs(tier: Tier, v: &mut Vec<Job>) {
+    let db = predelegated_world();
+    let ts = predelegated_templates();
+    for seq in sequences(ts.len(), 3) {
+        // a re-pointing or clearing transaction somewhere, at least one other transaction
+        if seq.len() < 2 || !seq.iter().any(|&t| t <= 1) || seq.iter().all(|&t| t <= 1) {
+            continue;
+        }
+        if seq.len() == 3 && (seq[0] == seq[1] || seq[1] == seq[2]) {
+            continue;
+        }
+        let Some(case) = build_case("c09p", SpecId::PRAGUE, &db, &ts, &seq) else { continue };
+        let mut run = RunCfg::parallel(2);
+        run.slow_db = true;
+        let bound = match (tier, seq.len()) {
+            (Tier::Quick, 2) => 2,
+            // quick: bound 2 where a reader of A is followed by a toucher of B after the change
+            (Tier::Quick, _) => if seq[0] <= 1 && matches!(seq[1], 2 | 4) && matches!(seq[2], 3 | 5 | 6) { 2 } else { 1 },
+            (Tier::Thorough, 2) => 3,
+            (Tier::Thorough, _) => 3,
+        };
+        v.push(pipeline_job("c09-predelegated", &case, &run, COARSE, bound, bound >= 3));
+    }
+}
+
 pub fn jobs(tier: Tier) -> Vec<Job> {
     let db = world();
     let templates = templates();
     let mut v = Vec::new();
     deploy_jobs(tier, &mut v);
+    predelegated_jobs(tier, &mut v);
     let specs: &[SpecId] = match tier {
         Tier::Quick => &[SpecId::CANCUN, SpecId::PRAGUE],
         Tier::Thorough => &[SpecId::SHANGHAI, SpecId::CANCUN, SpecId::PRAGUE, SpecId::OSAKA],
